@@ -598,6 +598,20 @@ pub fn run(run: &'static Run) {
     let all = &all;
     let few_finals: &[&str] = &["^!", "^@", "^-", "^-2"];
 
+    // ---- anchors on which git aborts (`fatal: log for 'refs/heads/main' only has 3 entries`): every longer spec fails the same way
+    // and each costs the batch oracle a process restart, so they are used bare only
+    let alive: Vec<Vec<String>> = fixtures
+        .iter()
+        .enumerate()
+        .map(|(i, fx)| {
+            let mut probe = HashMap::new();
+            let bare: Vec<&str> = fx.anchors.iter().map(String::as_str).filter(|a| names_single_object(a)).collect();
+            batch_oracle(&fx.dir, &bare, i as u8, &mut probe);
+            fx.anchors.iter().filter(|a| !matches!(probe.get(&(i as u8, a.to_string())), Some(Outcome::Error(e)) if e.starts_with("fatal:"))).cloned().collect()
+        })
+        .collect();
+    let quick_finals: &[&str] = &["^!", "^@", "^-"];
+
     // ---- generate every case up front (the batch oracle needs the complete list)
     let mut single: Vec<Case> = Vec::new();
     {
@@ -609,23 +623,17 @@ pub fn run(run: &'static Run) {
         };
         // simplest first: depth 0/1 everywhere, then the deep compositions
         for (i, fx) in fixtures.iter().enumerate() {
-            // every final form costs one git process: quick tries them on main and detached only
-            let finals = if thorough || i == 0 || i == 2 { SUFFIX_FINAL } else { &[] };
-            compose(&fx.anchors, all, 1, finals, &mut |s| out(i as u8, s));
+            // every final form costs one git process: quick tries three of them, on main only
+            let finals = if thorough { SUFFIX_FINAL } else if i == 0 { quick_finals } else { &[] };
+            for a in &fx.anchors {
+                out(i as u8, a.clone());
+            }
+            compose(&alive[i], all, 1, finals, &mut |s| out(i as u8, s));
         }
         if std::env::var("VERIF_C48_SHALLOW").is_err() {
-            // anchors on which git aborts (`fatal: log for 'refs/heads/main' only has 3 entries`) are composed to depth 1 only:
-            // every longer spec fails the same way, and each costs the batch oracle a process restart
-            let alive = |fx: &Fixture| -> Vec<String> {
-                fx.anchors
-                    .iter()
-                    .filter(|a| !names_single_object(a) || !git::try_git_in(&fx.dir, &["cat-file", "--batch-check"], format!("{a}\n").as_bytes()).err_text().contains("fatal:"))
-                    .cloned()
-                    .collect()
-            };
-            let main_alive = alive(&fixtures[0]);
+            let main_alive = alive[0].clone();
             if thorough {
-                let packed_alive = alive(&fixtures[1]);
+                let packed_alive = alive[1].clone();
                 compose(&main_alive, SUFFIX_DEEP, 3, &[], &mut |s| out(0, s));
                 compose(&main_alive, SUFFIX_DEEP, 2, SUFFIX_FINAL, &mut |s| out(0, s));
                 compose(&main_alive, all, 2, few_finals, &mut |s| out(0, s));
@@ -646,7 +654,11 @@ pub fn run(run: &'static Run) {
                 continue;
             }
             // quick: the full pair matrix on main only, a 5x5 matrix elsewhere
-            let revs: Vec<String> = if repo == 0 || thorough { revs.clone() } else { revs.iter().filter(|r| ["HEAD", "@", "main", "nonexistent", ""].contains(&r.as_str())).cloned().collect() };
+            let revs: Vec<String> = if thorough {
+                revs.clone()
+            } else if repo == 0 {
+                revs.iter().filter(|r| !["@", "vv", "tblob", "side^", "HEAD~2"].contains(&r.as_str())).cloned().collect()
+            } else { revs.iter().filter(|r| ["HEAD", "@", "main", "nonexistent", ""].contains(&r.as_str())).cloned().collect() };
             for a in &revs {
                 range.push(Case { repo, spec: format!("^{a}") });
                 for b in &revs {
